@@ -68,19 +68,19 @@ CHECKS = {
         note="Tests whose truth depends on earlier deletions (-empty, -links, -newer*) not used.",
         ref="DESIGN.md section 4 C10"),
     "C11": dict(
-        technique="runtime monitoring: (a) ill-formed-by-construction argument vectors observed for exit status, stderr, stdout, child processes (recorder log) and sandbox snapshot; (b) totality fuzzing of the real find_main under catch_unwind with a per-case watchdog (privileges dropped to uid 65534), plus the binary for non-UTF-8 arguments",
+        technique="runtime monitoring: (a) ill-formed-by-construction argument vectors observed for exit status, stderr, stdout, child processes (recorder log) and sandbox snapshot; (b) totality fuzzing of the real find_main under catch_unwind with a per-case watchdog (privileges dropped to uid 65534), plus the binary for non-UTF-8 arguments; pattern-bearing vectors replayed under valgrind memcheck (crash = violation, reports advisory)",
         level="exploration",
         text="(a) 14 corruption kinds (binary operator first/last/before ')'/after '(', adjacent operators incl. '! -a', '!' before ')', unbalanced and empty parentheses, missing operand for 44 primaries, 28 unknown primaries, invalid operands for -type -xtype -size -links -inum -uid -gid the six time tests -perm -regextype -user -group -printf -newer* -newerXt, unbalanced -regex per syntax, 11 malformed -exec forms) applied to random valid expressions that contain printing, executing and deleting actions; (b) random vectors over 78 primaries, operators and parentheses with operands from valid values, near misses and ~150 arbitrary strings, on a tree with every file type, foreign owners, an unreadable directory, an ELOOP link, a 3GiB sparse file, a 60-character name and hostile names; (c) ~300 targeted shapes: every test/action evaluated on entries removed by an earlier -delete / -exec rm, every -printf directive on every type, patterns on which the regex engine gives up, non-UTF-8 arguments. Quick ~12k vectors.",
         note="Creation/truncation of -fprint* files named before the error is not judged; an empty -newerXt operand is deliberately valid in this implementation (pinned by its test-suite); a watchdog firing is re-run alone before it counts as a hang; -printf widths between 10^4 and 10^19 are not generated.",
         ref="DESIGN.md section 4 C11"),
     "C12": dict(
-        technique="runtime monitoring: differential oracle over executions of the real matcher objects (in-process), real symlinks (-lname) and the binary: glibc fnmatch(3) in two locales AND an independent POSIX matcher must agree for a pair to be judged",
+        technique="runtime monitoring: differential oracle over executions of the real matcher objects (in-process), real symlinks (-lname) and the binary: glibc fnmatch(3) in two locales AND an independent POSIX matcher must agree for a pair to be judged; a sample of pattern rows replayed under valgrind memcheck (native Oniguruma engine; crash = violation, reports advisory)",
         level="exploration",
         text="Bounded-exhaustive: every pattern of length <=3 (quick) / <=4 (thorough) over {a b * ? [ ] ! \\ - .} against every subject of length <=3/<=4 over a 10-symbol alphabet, for -name -iname -path -ipath; structured random patterns (regex metacharacters as literals, escapes, bracket expressions with negation, leading ], ranges, classes, '[' members, trailing -, stray [ ] !, lone trailing backslash) with subjects sampled from the pattern and mutated (prefix, suffix, extension, substitution, case) for all six spellings; -lname/-ilname on real symbolic links; -name/-iname through the find binary on real files. Quick ~5M judged pairs.",
         note="Judged only where glibc(C.UTF-8) = glibc(C) = lib/posixfn.py; out of domain (counted): backslash or mid-list '-' inside brackets, '[^', non-alphanumeric ranges, collating/equivalence syntax, [:upper:]/[:lower:] under -i forms, classes against non-ASCII characters, subjects '.'/'..' for -name.",
         ref="DESIGN.md section 4 C12"),
     "C17": dict(
-        technique="runtime monitoring: differential oracle (Python re.fullmatch on the same regex AST) over executions of the matcher objects built by the real parser (in-process) and of the find binary on a real tree; metamorphic twin with every alternation reversed",
+        technique="runtime monitoring: differential oracle (Python re.fullmatch on the same regex AST) over executions of the matcher objects built by the real parser (in-process) and of the find binary on a real tree; metamorphic twin with every alternation reversed; generated and deliberately damaged patterns replayed under valgrind memcheck (crash = violation, reports advisory)",
         level="exploration",
         text="Random regex ASTs (literals incl. every metacharacter, '.', bracket sets with ranges and negation, groups, alternation, * + ? and intervals) are rendered into emacs, posix-basic, ed, sed, posix-extended and grep syntax using only the operators each syntax defines, placed under 8 -regextype scoping shapes (plain, default, inside parentheses, after a closed parenthesis, type inside parentheses, two types in one expression, overridden, negated), and applied to paths sampled from the AST and mutated (proper prefixes, extensions, substitutions, case changes). Quick ~24k ASTs / ~1.5M judged (pattern, path) pairs plus ~1000 binary runs.",
         note="Known finding first-match-shorter-than-path (known_findings.json) is matched by exact mechanism signature; pairs on which Oniguruma gives up (diagnosed on stderr) are out of domain; no back-references, anchors or classes; paths without newline.",
